@@ -267,6 +267,8 @@ class AsyncMapper(AsyncIterable):
 
     async def __aiter__(self):
         func = self.func
+        if getattr(func, 'fresh_per_iteration', False):
+            func = func.fresh()
         if iscoroutinefunction(func):
             async for v in self._instream:
                 yield await func(v)
